@@ -20,7 +20,7 @@ RULE = ("Hypothesis-generated libraries in the OASIS domain (1-5 cells, acyclic 
         "one grid unit off, regular polygons approximating circles at / near the detection tolerance), simple flex and "
         "robust paths with flush / half-width / extended ends, outlined paths, labels, every repetition kind on every element "
         "kind (negative and duplicate coordinates, off-grid vectors), user properties with unsigned / signed / real / text / "
-        "binary values (1-3 values, order kept) and GDSII-style properties; options: all 256 flag bytes, deflate level 0-9, "
+        "binary values (1-3 and 14-16 values, order kept) and GDSII-style properties; options: all 256 flag bytes, deflate level 0-9, "
         "circle tolerance {0, 1e-3, 1e-2} x unit; 1-3 save/load cycles. Oracle: Python model of the expected reloaded library "
         "(pbt/oasmodel.py) with both sides expanded to placements: every element must re-appear with its tag, its properties "
         "in order and its coordinates on the grid within 0.5 grid unit (plus 0.5 per rounded lattice summand of an off-grid "
@@ -60,7 +60,8 @@ def oas_props(draw):
             out.append([attr, draw(st.text(alphabet="abc XYZ09", min_size=1, max_size=6))])
         else:
             name = draw(st.sampled_from(["P", "prop_a", "S_USER", "x" * 20, "name with space", "A1", "prop_a"]))
-            out.append([name, [draw(oas_value()) for _ in range(draw(st.integers(1, 3)))]])
+            # (the PROPERTY info byte holds counts 0-14; 15 announces an explicit count: both sides of that boundary)
+            out.append([name, [draw(oas_value()) for _ in range(draw(st.sampled_from([1, 1, 1, 2, 2, 3, 14, 15, 16])))]])
     return out
 
 
